@@ -254,10 +254,18 @@ def run(ctx):
             lines[1].append('vf_unrelated = 1')
         for t in TYPES:                 # --mca options interleaved per repetition so that repeated options are not adjacent
             pass
+        # decoy options whose names are prefix-related to the probed ones (unregistered parameters: they must only be exported
+        # to the context environment): one case in three gives the LONGER name first, one in three the longer name last
+        import zlib
+        c.decoy = zlib.crc32(c.cid.encode()) % 3 if c.present['C'] else 0
+        if c.decoy == 1:
+            for t in TYPES: args += [c.spell, c.name(t, 'C') + '_extra', 'decoy']
         for r in range(c.repeat):
             for t in TYPES:
                 if c.present['C']:
                     args += [c.spell, c.name(t, 'C'), c.values[t]['C'][r]]
+        if c.decoy == 2:
+            for t in TYPES: args += [c.spell, c.name(t, 'C') + '_extra', 'decoy']
         for f, l in zip(files, lines):
             with open(f, 'w') as fh:
                 fh.write('# C38 case %s\n' % c.cid + '\n'.join(l) + '\n')
@@ -338,7 +346,8 @@ def run(ctx):
         # the --mca -> environment translation seen directly on the low path
         if c.path == 'low':
             ent = sorted(unhex(e['entry']) for e in r.of('ctxenv'))
-            want = sorted('PARSEC_MCA_%s=%s' % (c.name(t, 'C'), ','.join(c.values[t]['C'][:c.repeat])) for t in TYPES) if (c.present['C'] and c.spell != '--gmca') else []
+            want = sorted(['PARSEC_MCA_%s=%s' % (c.name(t, 'C'), ','.join(c.values[t]['C'][:c.repeat])) for t in TYPES] +
+                          (['PARSEC_MCA_%s_extra=decoy' % c.name(t, 'C') for t in TYPES] if getattr(c, 'decoy', 0) else [])) if (c.present['C'] and c.spell != '--gmca') else []
             if ent != want:
                 ctx.violation(('fuzz:' if c.fuzz else '') + 'mca_cmd_line_process_args:context-env', '%s: --mca options produced %r, expected %r' % (what, ent[:4], want[:4]), r)
             ctx.add_cov('ctxenv_entries_checked', len(want))
